@@ -874,7 +874,7 @@ func (p *wat2cWorker) buildFunc_ins(w io.Writer, fn *ast.Func, stk *valueTypeSta
 		if p.m.Memory.AddrType == token.I32 {
 			sp0 := stk.Pop(token.I32)
 			ret0 := stk.Push(token.I32)
-			fmt.Fprintf(w, "%smemcpy(&R%d.i32, &%s_memory[R%d.i32+%d], 4); // %s\n",
+			fmt.Fprintf(w, "%smemcpy(&R%d.i32, &%s_memory[(uint64_t)R%d.u32+%d], 4); // %s\n",
 				indent, ret0, p.opt.Prefix, sp0, i.Offset,
 				insString(i),
 			)
@@ -891,7 +891,7 @@ func (p *wat2cWorker) buildFunc_ins(w io.Writer, fn *ast.Func, stk *valueTypeSta
 		if p.m.Memory.AddrType == token.I32 {
 			sp0 := stk.Pop(token.I32)
 			ret0 := stk.Push(token.I64)
-			fmt.Fprintf(w, "%smemcpy(&R%d.i64, &%s_memory[R%d.i32+%d], 8); // %s\n",
+			fmt.Fprintf(w, "%smemcpy(&R%d.i64, &%s_memory[(uint64_t)R%d.u32+%d], 8); // %s\n",
 				indent, ret0, p.opt.Prefix, sp0, i.Offset,
 				insString(i),
 			)
@@ -908,7 +908,7 @@ func (p *wat2cWorker) buildFunc_ins(w io.Writer, fn *ast.Func, stk *valueTypeSta
 		if p.m.Memory.AddrType == token.I32 {
 			sp0 := stk.Pop(token.I32)
 			ret0 := stk.Push(token.F32)
-			fmt.Fprintf(w, "%smemcpy(&R%d.f32, &%s_memory[R%d.i32+%d], 4); // %s\n",
+			fmt.Fprintf(w, "%smemcpy(&R%d.f32, &%s_memory[(uint64_t)R%d.u32+%d], 4); // %s\n",
 				indent, ret0, p.opt.Prefix, sp0, i.Offset,
 				insString(i),
 			)
@@ -925,7 +925,7 @@ func (p *wat2cWorker) buildFunc_ins(w io.Writer, fn *ast.Func, stk *valueTypeSta
 		if p.m.Memory.AddrType == token.I32 {
 			sp0 := stk.Pop(token.I32)
 			ret0 := stk.Push(token.F64)
-			fmt.Fprintf(w, "%smemcpy(&R%d.f64, &%s_memory[R%d.i32+%d], 8);// %s\n",
+			fmt.Fprintf(w, "%smemcpy(&R%d.f64, &%s_memory[(uint64_t)R%d.u32+%d], 8);// %s\n",
 				indent, ret0, p.opt.Prefix, sp0, i.Offset,
 				insString(i),
 			)
@@ -943,7 +943,7 @@ func (p *wat2cWorker) buildFunc_ins(w io.Writer, fn *ast.Func, stk *valueTypeSta
 			sp0 := stk.Pop(token.I32)
 			ret0 := stk.Push(token.I32)
 			p.use_R_u8 = true
-			fmt.Fprintf(w, "%smemcpy(&R_u8, &%s_memory[R%d.i32+%d], 1); R%d.i32 = (int32_t)((int8_t)R_u8); // %s\n",
+			fmt.Fprintf(w, "%smemcpy(&R_u8, &%s_memory[(uint64_t)R%d.u32+%d], 1); R%d.i32 = (int32_t)((int8_t)R_u8); // %s\n",
 				indent, p.opt.Prefix, sp0, i.Offset, ret0,
 				insString(i),
 			)
@@ -962,7 +962,7 @@ func (p *wat2cWorker) buildFunc_ins(w io.Writer, fn *ast.Func, stk *valueTypeSta
 			sp0 := stk.Pop(token.I32)
 			ret0 := stk.Push(token.I32)
 			p.use_R_u8 = true
-			fmt.Fprintf(w, "%smemcpy(&R_u8, &%s_memory[R%d.i32+%d], 1); R%d.i32 = (int32_t)((uint8_t)R_u8); // %s\n",
+			fmt.Fprintf(w, "%smemcpy(&R_u8, &%s_memory[(uint64_t)R%d.u32+%d], 1); R%d.i32 = (int32_t)((uint8_t)R_u8); // %s\n",
 				indent, p.opt.Prefix, sp0, i.Offset, ret0,
 				insString(i),
 			)
@@ -981,7 +981,7 @@ func (p *wat2cWorker) buildFunc_ins(w io.Writer, fn *ast.Func, stk *valueTypeSta
 			sp0 := stk.Pop(token.I32)
 			ret0 := stk.Push(token.I32)
 			p.use_R_u16 = true
-			fmt.Fprintf(w, "%smemcpy(&R_u16, &%s_memory[R%d.i32+%d], 2); R%d.i32 = (int32_t)((int16_t)R_u16); // %s\n",
+			fmt.Fprintf(w, "%smemcpy(&R_u16, &%s_memory[(uint64_t)R%d.u32+%d], 2); R%d.i32 = (int32_t)((int16_t)R_u16); // %s\n",
 				indent, p.opt.Prefix, sp0, i.Offset, ret0,
 				insString(i),
 			)
@@ -1000,7 +1000,7 @@ func (p *wat2cWorker) buildFunc_ins(w io.Writer, fn *ast.Func, stk *valueTypeSta
 			sp0 := stk.Pop(token.I32)
 			ret0 := stk.Push(token.I32)
 			p.use_R_u16 = true
-			fmt.Fprintf(w, "%smemcpy(&R_u16, &%s_memory[R%d.i32+%d], 2); R%d.i32 = (int32_t)((uint16_t)R_u16); // %s\n",
+			fmt.Fprintf(w, "%smemcpy(&R_u16, &%s_memory[(uint64_t)R%d.u32+%d], 2); R%d.i32 = (int32_t)((uint16_t)R_u16); // %s\n",
 				indent, p.opt.Prefix, sp0, i.Offset, ret0,
 				insString(i),
 			)
@@ -1019,7 +1019,7 @@ func (p *wat2cWorker) buildFunc_ins(w io.Writer, fn *ast.Func, stk *valueTypeSta
 			sp0 := stk.Pop(token.I32)
 			ret0 := stk.Push(token.I64)
 			p.use_R_u8 = true
-			fmt.Fprintf(w, "%smemcpy(&R_u8, &%s_memory[R%d.i32+%d], 1); R%d.i64 = (int64_t)((int8_t)R_u8); // %s\n",
+			fmt.Fprintf(w, "%smemcpy(&R_u8, &%s_memory[(uint64_t)R%d.u32+%d], 1); R%d.i64 = (int64_t)((int8_t)R_u8); // %s\n",
 				indent, p.opt.Prefix, sp0, i.Offset, ret0,
 				insString(i),
 			)
@@ -1038,7 +1038,7 @@ func (p *wat2cWorker) buildFunc_ins(w io.Writer, fn *ast.Func, stk *valueTypeSta
 			sp0 := stk.Pop(token.I32)
 			ret0 := stk.Push(token.I64)
 			p.use_R_u8 = true
-			fmt.Fprintf(w, "%smemcpy(&R_u8, &%s_memory[R%d.i32+%d], 1); R%d.i64 = (int64_t)((uint8_t)R_u8); // %s\n",
+			fmt.Fprintf(w, "%smemcpy(&R_u8, &%s_memory[(uint64_t)R%d.u32+%d], 1); R%d.i64 = (int64_t)((uint8_t)R_u8); // %s\n",
 				indent, p.opt.Prefix, sp0, i.Offset, ret0,
 				insString(i),
 			)
@@ -1057,7 +1057,7 @@ func (p *wat2cWorker) buildFunc_ins(w io.Writer, fn *ast.Func, stk *valueTypeSta
 			sp0 := stk.Pop(token.I32)
 			ret0 := stk.Push(token.I64)
 			p.use_R_u16 = true
-			fmt.Fprintf(w, "%smemcpy(&R_u16, &%s_memory[R%d.i32+%d], 2); R%d.i64 = (int64_t)((int16_t)R_u16); // %s\n",
+			fmt.Fprintf(w, "%smemcpy(&R_u16, &%s_memory[(uint64_t)R%d.u32+%d], 2); R%d.i64 = (int64_t)((int16_t)R_u16); // %s\n",
 				indent, p.opt.Prefix, sp0, i.Offset, ret0,
 				insString(i),
 			)
@@ -1076,7 +1076,7 @@ func (p *wat2cWorker) buildFunc_ins(w io.Writer, fn *ast.Func, stk *valueTypeSta
 			sp0 := stk.Pop(token.I32)
 			ret0 := stk.Push(token.I64)
 			p.use_R_u16 = true
-			fmt.Fprintf(w, "%smemcpy(&R_u16, &%s_memory[R%d.i32+%d], 2); R%d.i64 = (int64_t)((uint16_t)R_u16); // %s\n",
+			fmt.Fprintf(w, "%smemcpy(&R_u16, &%s_memory[(uint64_t)R%d.u32+%d], 2); R%d.i64 = (int64_t)((uint16_t)R_u16); // %s\n",
 				indent, p.opt.Prefix, sp0, i.Offset, ret0,
 				insString(i),
 			)
@@ -1095,7 +1095,7 @@ func (p *wat2cWorker) buildFunc_ins(w io.Writer, fn *ast.Func, stk *valueTypeSta
 			sp0 := stk.Pop(token.I32)
 			ret0 := stk.Push(token.I64)
 			p.use_R_u32 = true
-			fmt.Fprintf(w, "%smemcpy(&R_u32, &%s_memory[R%d.i32+%d], 4); R%d.i64 = (int64_t)((int32_t)R_u32); // %s\n",
+			fmt.Fprintf(w, "%smemcpy(&R_u32, &%s_memory[(uint64_t)R%d.u32+%d], 4); R%d.i64 = (int64_t)((int32_t)R_u32); // %s\n",
 				indent, p.opt.Prefix, sp0, i.Offset, ret0,
 				insString(i),
 			)
@@ -1114,7 +1114,7 @@ func (p *wat2cWorker) buildFunc_ins(w io.Writer, fn *ast.Func, stk *valueTypeSta
 			sp0 := stk.Pop(token.I32)
 			ret0 := stk.Push(token.I64)
 			p.use_R_u32 = true
-			fmt.Fprintf(w, "%smemcpy(&R_u32, &%s_memory[R%d.i32+%d], 4); R%d.i64 = (int64_t)((uint32_t)R_u32); // %s\n",
+			fmt.Fprintf(w, "%smemcpy(&R_u32, &%s_memory[(uint64_t)R%d.u32+%d], 4); R%d.i64 = (int64_t)((uint32_t)R_u32); // %s\n",
 				indent, p.opt.Prefix, sp0, i.Offset, ret0,
 				insString(i),
 			)
@@ -1132,7 +1132,7 @@ func (p *wat2cWorker) buildFunc_ins(w io.Writer, fn *ast.Func, stk *valueTypeSta
 		if p.m.Memory.AddrType == token.I32 {
 			sp0 := stk.Pop(token.I32)
 			sp1 := stk.Pop(token.I32)
-			fmt.Fprintf(w, "%smemcpy(&%s_memory[R%d.i32+%d], &R%d.i32, 4); // %s\n",
+			fmt.Fprintf(w, "%smemcpy(&%s_memory[(uint64_t)R%d.u32+%d], &R%d.i32, 4); // %s\n",
 				indent, p.opt.Prefix, sp1, i.Offset, sp0,
 				insString(i),
 			)
@@ -1149,7 +1149,7 @@ func (p *wat2cWorker) buildFunc_ins(w io.Writer, fn *ast.Func, stk *valueTypeSta
 		if p.m.Memory.AddrType == token.I32 {
 			sp0 := stk.Pop(token.I64)
 			sp1 := stk.Pop(token.I32)
-			fmt.Fprintf(w, "%smemcpy(&%s_memory[R%d.i32+%d], &R%d.i64, 8); // %s\n",
+			fmt.Fprintf(w, "%smemcpy(&%s_memory[(uint64_t)R%d.u32+%d], &R%d.i64, 8); // %s\n",
 				indent, p.opt.Prefix, sp1, i.Offset, sp0,
 				insString(i),
 			)
@@ -1166,7 +1166,7 @@ func (p *wat2cWorker) buildFunc_ins(w io.Writer, fn *ast.Func, stk *valueTypeSta
 		if p.m.Memory.AddrType == token.I32 {
 			sp0 := stk.Pop(token.F32)
 			sp1 := stk.Pop(token.I32)
-			fmt.Fprintf(w, "%smemcpy(&%s_memory[R%d.i32+%d], &R%d.f32, 4); // %s\n",
+			fmt.Fprintf(w, "%smemcpy(&%s_memory[(uint64_t)R%d.u32+%d], &R%d.f32, 4); // %s\n",
 				indent, p.opt.Prefix, sp1, i.Offset, sp0,
 				insString(i),
 			)
@@ -1183,7 +1183,7 @@ func (p *wat2cWorker) buildFunc_ins(w io.Writer, fn *ast.Func, stk *valueTypeSta
 		if p.m.Memory.AddrType == token.I32 {
 			sp0 := stk.Pop(token.F64)
 			sp1 := stk.Pop(token.I32)
-			fmt.Fprintf(w, "%smemcpy(&%s_memory[R%d.i32+%d], &R%d.f64, 8); // %s\n",
+			fmt.Fprintf(w, "%smemcpy(&%s_memory[(uint64_t)R%d.u32+%d], &R%d.f64, 8); // %s\n",
 				indent, p.opt.Prefix, sp1, i.Offset, sp0,
 				insString(i),
 			)
@@ -1201,7 +1201,7 @@ func (p *wat2cWorker) buildFunc_ins(w io.Writer, fn *ast.Func, stk *valueTypeSta
 			sp0 := stk.Pop(token.I32)
 			sp1 := stk.Pop(token.I32)
 			p.use_R_u8 = true
-			fmt.Fprintf(w, "%sR_u8 = (uint8_t)((int8_t)(R%d.i32)); memcpy(&%s_memory[R%d.i32+%d], &R_u8, 1); // %s\n",
+			fmt.Fprintf(w, "%sR_u8 = (uint8_t)((int8_t)(R%d.i32)); memcpy(&%s_memory[(uint64_t)R%d.u32+%d], &R_u8, 1); // %s\n",
 				indent, sp0, p.opt.Prefix, sp1, i.Offset,
 				insString(i),
 			)
@@ -1220,7 +1220,7 @@ func (p *wat2cWorker) buildFunc_ins(w io.Writer, fn *ast.Func, stk *valueTypeSta
 			sp0 := stk.Pop(token.I32)
 			sp1 := stk.Pop(token.I32)
 			p.use_R_u16 = true
-			fmt.Fprintf(w, "%sR_u16 = (uint16_t)((int16_t)(R%d.i32)); memcpy(&%s_memory[R%d.i32+%d], &R_u16, 2); // %s\n",
+			fmt.Fprintf(w, "%sR_u16 = (uint16_t)((int16_t)(R%d.i32)); memcpy(&%s_memory[(uint64_t)R%d.u32+%d], &R_u16, 2); // %s\n",
 				indent, sp0, p.opt.Prefix, sp1, i.Offset,
 				insString(i),
 			)
@@ -1239,7 +1239,7 @@ func (p *wat2cWorker) buildFunc_ins(w io.Writer, fn *ast.Func, stk *valueTypeSta
 			sp0 := stk.Pop(token.I64)
 			sp1 := stk.Pop(token.I32)
 			p.use_R_u8 = true
-			fmt.Fprintf(w, "%sR_u8 = (uint8_t)((int8_t)(R%d.i64)); memcpy(&%s_memory[R%d.i32+%d], &R_u8, 1); // %s\n",
+			fmt.Fprintf(w, "%sR_u8 = (uint8_t)((int8_t)(R%d.i64)); memcpy(&%s_memory[(uint64_t)R%d.u32+%d], &R_u8, 1); // %s\n",
 				indent, sp0, p.opt.Prefix, sp1, i.Offset,
 				insString(i),
 			)
@@ -1258,7 +1258,7 @@ func (p *wat2cWorker) buildFunc_ins(w io.Writer, fn *ast.Func, stk *valueTypeSta
 			sp0 := stk.Pop(token.I64)
 			sp1 := stk.Pop(token.I32)
 			p.use_R_u16 = true
-			fmt.Fprintf(w, "%sR_u16 = (uint16_t)((int16_t)(R%d.i64)); memcpy(&%s_memory[R%d.i32+%d], &R_u16, 2); // %s\n",
+			fmt.Fprintf(w, "%sR_u16 = (uint16_t)((int16_t)(R%d.i64)); memcpy(&%s_memory[(uint64_t)R%d.u32+%d], &R_u16, 2); // %s\n",
 				indent, sp0, p.opt.Prefix, sp1, i.Offset,
 				insString(i),
 			)
@@ -1277,7 +1277,7 @@ func (p *wat2cWorker) buildFunc_ins(w io.Writer, fn *ast.Func, stk *valueTypeSta
 			sp0 := stk.Pop(token.I64)
 			sp1 := stk.Pop(token.I32)
 			p.use_R_u32 = true
-			fmt.Fprintf(w, "%sR_u32 = (uint32_t)((int32_t)(R%d.i64)); memcpy(&%s_memory[R%d.i32+%d], &R_u32, 4); // %s\n",
+			fmt.Fprintf(w, "%sR_u32 = (uint32_t)((int32_t)(R%d.i64)); memcpy(&%s_memory[(uint64_t)R%d.u32+%d], &R_u32, 4); // %s\n",
 				indent, sp0, p.opt.Prefix, sp1, i.Offset,
 				insString(i),
 			)
@@ -1336,7 +1336,7 @@ func (p *wat2cWorker) buildFunc_ins(w io.Writer, fn *ast.Func, stk *valueTypeSta
 			sb.WriteString(fmt.Sprintf("\\x%02x", x))
 		}
 
-		fmt.Fprintf(w, "%smemcpy(&%s_memory[R%d.i32], (const char*)(\"%s\")+R%d.i32, R%d.i32); // %s\n",
+		fmt.Fprintf(w, "%smemcpy(&%s_memory[R%d.u32], (const char*)(\"%s\")+R%d.u32, R%d.u32); // %s\n",
 			indent, p.opt.Prefix, dst, sb.String(), off, len,
 			insString(i),
 		)
@@ -1345,7 +1345,7 @@ func (p *wat2cWorker) buildFunc_ins(w io.Writer, fn *ast.Func, stk *valueTypeSta
 		src := stk.Pop(token.I32)
 		dst := stk.Pop(token.I32)
 		// 源和目标可能重叠
-		fmt.Fprintf(w, "%smemmove(&%s_memory[R%d.i32], &%s_memory[R%d.i32], R%d.i32); // %s\n",
+		fmt.Fprintf(w, "%smemmove(&%s_memory[R%d.u32], &%s_memory[R%d.u32], R%d.u32); // %s\n",
 			indent, p.opt.Prefix, dst, p.opt.Prefix, src, len,
 			insString(i),
 		)
@@ -1353,7 +1353,7 @@ func (p *wat2cWorker) buildFunc_ins(w io.Writer, fn *ast.Func, stk *valueTypeSta
 		len := stk.Pop(token.I32)
 		val := stk.Pop(token.I32)
 		dst := stk.Pop(token.I32)
-		fmt.Fprintf(w, "%smemset(&%s_memory[R%d.i32], R%d.i32, R%d.i32); // %s\n",
+		fmt.Fprintf(w, "%smemset(&%s_memory[R%d.u32], R%d.i32, R%d.u32); // %s\n",
 			indent, p.opt.Prefix, dst, val, len,
 			insString(i),
 		)
